@@ -10,6 +10,7 @@ CONSTANTS
   AllowNil = FALSE
   ChainOnly = FALSE
   WriteNewest = FALSE
+  AllowReduce = FALSE
   AllowCopy = FALSE
   EarlyStop = FALSE
   Emit = TRUE
